@@ -298,10 +298,13 @@ class FFTMTF:
         FNO = self.optic.paraxial.FNO()
 
         if not self.optic.object_surface.is_infinite:
-            D = self.optic.paraxial.XPD()
-            p = D / self.optic.paraxial.EPD()
-            m = self.optic.paraxial.magnification()
-            FNO *= (1 + np.abs(m) / p)
+            # working F-number of a finite conjugate: 1 / (2 n' |u'|) with
+            # u' the paraxial marginal slope in image space (this equals
+            # FNO * (1 - m/p); the former (1 + |m|/p) was only right for
+            # inverted images with positive pupil magnification)
+            _, ua = self.optic.paraxial.marginal_ray()
+            n_image = self.optic.n()[-2]
+            FNO = float(np.ravel(1 / (2 * np.abs(n_image * ua[-2])))[0])
 
         return FNO
 
